@@ -4,6 +4,7 @@ import re
 import hashlib
 import io
 import os
+import shutil
 
 from twisted.internet import defer
 
@@ -87,6 +88,12 @@ def cases(tier, seed, prep=None):
         out.append({"kind": "clean", "payload": ["file", "text", "directory"][i % 3], "seed": base + k, "relay": i % 5 == 0,
                     "mode": ["zeromode", "verify-yes", "verify-no", "sender-allocates", "receiver-allocates", "verify-yes"][i % 6],
                     "code_length": [1, 2, 3, 5][(i // 6) % 4]})
+        k += 1
+    # the destination: -o naming something new, an existing "inbox" directory (empty, or already holding an older version of
+    # the very thing that is being sent), with the receiver's user answering the prompt by hand or --accept-file
+    for i in range(48 if q else 1500):
+        out.append({"kind": "clean", "payload": ["directory", "file", "directory"][i % 3], "seed": base + k, "relay": i % 7 == 0,
+                    "dest": ["inbox-old", "inbox-old", "inbox-empty", "newname"][(i // 3) % 4], "accept": bool((i // 12) % 2)})
         k += 1
     for i in range(40 if q else 1000):
         out.append({"kind": "liar", "payload": "file", "seed": base + k, "lie": ["wrong-hash", "not-ok", "garbage", "never", "hash-empty", "hash-null", "hash-zero", "hash-list", "hash-upper", "hash-prefix"][i % 10]})
@@ -200,6 +207,33 @@ def _run(spec, world, rng, r, base):
     sa.cwd = sd
     ra = mkargs(code=code, transit_helper=helper, listen=listen)
     ra.cwd = rd
+    dest_root, dest_name = rd, desc.get("name")
+    if spec.get("dest") and payload != "text":
+        from ..cli_work import ANSWERS
+        del ANSWERS[:]
+        ra.accept_file = spec["accept"]
+        if spec["dest"] == "newname":
+            ra.output_file = dest_name = "renamed-" + rng.choice(["x", "y.bin", "z z"])
+        else:
+            ra.output_file = "inbox"
+            dest_root = os.path.join(rd, "inbox")
+            os.mkdir(dest_root)
+            if spec["dest"] == "inbox-old":
+                # an older version of the same thing, received earlier: one member the sender has since deleted, one it has edited
+                old = os.path.join(dest_root, desc["name"])
+                if payload == "directory":
+                    shutil.copytree(os.path.join(sd, desc["name"]), old, symlinks=True)
+                    with open(os.path.join(old, "deleted-since.bin"), "wb") as f:
+                        f.write(b"stale")
+                    for dp, dn, fn in os.walk(old):
+                        for n_ in fn[:1]:
+                            if not os.path.islink(os.path.join(dp, n_)):
+                                os.chmod(os.path.join(dp, n_), 0o600)
+                                with open(os.path.join(dp, n_), "ab") as f:
+                                    f.write(b"old edit")
+                else:
+                    with open(old, "wb") as f:
+                        f.write(b"the previous version")
     mode = spec.get("mode")
     start_receiver_when = None
     start_sender_when = None
@@ -333,7 +367,7 @@ def _run(spec, world, rng, r, base):
     transit_used = any(l.tags.get("port") != 4000 for l in r.links)
     viol = []
     src = snapshot(sd)
-    dst = snapshot(rd)
+    dst = snapshot(dest_root)
     wit = {"spec": spec, "payload": desc if payload != "text" else {"kind": "text", "text": repr(desc["text"])[:200]},
            "sender": so, "receiver": ro, "sender_err": repr(rs.failure.value)[:200] if rs.failure else None,
            "receiver_err": repr(rr.failure.value)[:200] if rr.failure else None,
@@ -366,10 +400,12 @@ def _run(spec, world, rng, r, base):
                 viol.append({"key": "C04/text/unsafe-character-printed", "msg": repr(body)[:100], "witness": wit})
         elif payload == "file":
             name = desc["name"]
-            if dst.get(name, (None,))[:3] != src[name][:3]:
-                viol.append({"key": "C04/file/differs-after-success", "msg": "sent %r received %r" % (src[name][:3], dst.get(name)), "witness": wit})
+            if dst.get(dest_name, (None,))[:3] != src[name][:3]:
+                viol.append({"key": "C04/file/differs-after-success", "msg": "sent %r received %r" % (src[name][:3], dst.get(dest_name)), "witness": wit})
         else:
             name = desc["name"]
+            if dest_name != name:
+                dst = {(name + k[len(dest_name):] if k == dest_name or k.startswith(dest_name + os.sep) else "other/" + k): v for k, v in dst.items()}
             s_tree = {k[len(name) + 1:]: (v[:3] if v[0] == "file" else ("dir",)) for k, v in src.items() if k.startswith(name + os.sep)
                       and k[len(name) + 1:] not in desc.get("unsendable", [])}
             d_tree = {k[len(name) + 1:]: (v[:3] if v[0] == "file" else ("dir",)) for k, v in dst.items() if k.startswith(name + os.sep)}
@@ -428,7 +464,7 @@ def _run(spec, world, rng, r, base):
             "counters": {"clean_success": int(clean and so == "success" and ro == "success"),
                          "data_faults_fired": int(kind == "datafault" and fired), "ack_faults_fired": int(kind == "ackfault" and fired),
                          "liar_cases": int(kind == "liar" and bool(liar_log)), "grow_cases": int(kind == "grow" and bool(grown)), "stale_tmp_cases": int(bool(desc.get("stale_tmp"))), "unsendable_entries_skipped": len(desc.get("unsendable", [])), "clean_failed": int(bool(clean_failure)), "hangs": int(bool(hang)), "faults_not_reached": int(kind in ("datafault", "ackfault") and not fired),
-                         "payload_" + payload: 1, **({"mode_" + spec["mode"]: int(so == "success" and ro == "success") if spec["mode"] != "verify-no" else int("Error" in so)} if spec.get("mode") else {}), "via_relay": int(any(l.tags.get("port") == 4001 for l in r.links)),
+                         "payload_" + payload: 1, **({"dest_%s_%s_%s" % (spec["dest"], payload, "accept-file" if spec["accept"] else "prompt"): int(so == "success" and ro == "success")} if spec.get("dest") else {}), **({"mode_" + spec["mode"]: int(so == "success" and ro == "success") if spec["mode"] != "verify-no" else int("Error" in so)} if spec.get("mode") else {}), "via_relay": int(any(l.tags.get("port") == 4001 for l in r.links)),
                          "steps": world.step, "bytes_payload": desc.get("size", 0)},
             "sets": {"clean_transfers_that_failed": [clean_failure] if clean_failure else [],
                      "hangs_observed": [hang] if hang else []},
